@@ -28,25 +28,44 @@ Theorem C41_get_none : forall l d l',
 Proof. exact get_none. Qed.
 Print Assumptions C41_get_none.
 
-(* The salt attached to an outgoing message, over ALL histories of future-salt announcements
-   (overlapping, duplicated, expired), server-told salts, resets and clock readings `pre`
-   followed by an attach at clock reading `now` (session() -> updateSalt -> salt field):
-   (A) it is a salt of the store -- hence announced by the server in an earlier future_salts
-       answer -- whose valid_until is after now + lookahead (attach_ok, first disjunct), or
-   (B) the store holds no salt valid beyond now + lookahead, and the previously held salt is
-       kept unchanged (second disjunct); by C41_provenance that salt is the initial one, the
-       last server-told one, or one selected earlier under (A).
-   Reading of "never a salt already expired": an expired future salt is never SELECTED, and a
-   held one is kept only in case (B), when the client knows no valid salt at all; the server
-   then answers bad_server_salt and C41_invoke_retry applies. *)
-Theorem C41_attached : forall s0 pre now,
+(* FULL STATEMENT of clause 1 (the property's wording), kept visible:
+     forall s0 pre now, let st' := fst (step (run_state (init s0) pre) (OAttach now)) in
+       match cur_src st' with
+       | Future v => v > deadline now        (* a future salt valid beyond the lookahead *)
+       | Told | Initial => True              (* the last salt the server told *)
+       end
+   It does NOT hold for the code: once the store holds no salt valid beyond the lookahead,
+   updateSalt leaves the previously selected future salt in place whatever its age.  Witness:
+   salt 11 valid until t = 1000 s, selected at t = 100 s, still attached at t = 1100 s.
+   Known finding C41 `expired-future-salt-kept`; not repaired: the client has no valid salt to
+   attach instead, and the server's bad_server_salt + the single retry (below) is the
+   protocol's recovery for exactly this situation. *)
+Theorem C41_refuted :
+  let pre := [OStore [(1000, 11)]; OAttach 100000000000; OAttach 900000000000] in
+  let now := 1100000000000 in
+  let st' := fst (step (run_state (init 5) pre) (OAttach now)) in
+  snd (step (run_state (init 5) pre) (OAttach now)) = Some 11 /\ cur_src st' = Future 1000 /\ 1000 * 1000000000 <= now.
+Proof. exact expired_salt_kept. Qed.
+Print Assumptions C41_refuted.
+
+(* What does hold, over ALL histories of future-salt announcements (overlapping, duplicated,
+   expired), server-told salts, resets and clock readings `pre`, performed by any goroutines
+   (each op is one mutex-protected step, Model/Salts.v), followed by an attach at clock
+   reading `now` (session() -> updateSalt -> salt field):
+   (A) the attached salt is a salt of the store -- hence announced by the server in an earlier
+       future_salts answer -- whose valid_until is after now + lookahead, or
+   (B) the store holds NO salt valid beyond now + lookahead, and the previously held salt is
+       kept unchanged; by C41_provenance that salt is the initial one, the last server-told
+       one, or one selected earlier under (A).
+   So an expired future salt is never SELECTED, and is kept only when nothing valid is known. *)
+Theorem C41_partial : forall s0 pre now,
   let st := run_state (init s0) pre in
   let st' := fst (step st (OAttach now)) in
   snd (step st (OAttach now)) = Some (cur st') /\
   attach_ok st now st' /\
   (forall x, In x (salts st) -> announced pre x).
 Proof. exact attach_history. Qed.
-Print Assumptions C41_attached.
+Print Assumptions C41_partial.
 
 (* the lookahead window is 5 minutes: the deadline handed to Get is floor((now + 300 s) / 1 s) *)
 Theorem C41_lookahead : forall now, deadline now = (now + 300 * 1000000000) / 1000000000.
@@ -74,6 +93,30 @@ Theorem C41_invoke_retry : forall st now1 now2 r1 r2,
   end.
 Proof. exact invoke_retry. Qed.
 Print Assumptions C41_invoke_retry.
+
+(* ... and with ANY environment between the bad-salt handling and the second send (other
+   goroutines' updateSalt calls at any clock readings, future_salts answers, further told
+   salts, resets): still exactly two sends and the second result returned; the second send
+   carries a salt satisfying (A)/(B) w.r.t. the state the environment produced, every stored
+   salt was announced within env, and if the environment brings no salt (only updateSalt calls
+   and resets -- in particular the concurrent read path) the second send carries exactly the
+   salt the server told.  Retransmissions INSIDE one rpc.Engine.Do (several frames per Do,
+   each encoded with the salt current at that moment) are C25's subject; here one Do = one send. *)
+Theorem C41_invoke_retry_env : forall st now1 ns env now2 r2,
+  let st2 := {| cur := ns; cur_src := Told; salts := [] |} in
+  let '(sends, out, st') := invoke_env st now1 (DoBad c_codeIncorrectServerSalt ns) env now2 r2 in
+  exists s2, sends = [cur (update_salt now1 st); s2] /\ out = ret_of r2 /\ s2 = cur st' /\
+    attach_ok (run_state st2 env) now2 st' /\
+    (forall x, In x (salts (run_state st2 env)) -> announced env x) /\
+    (forallb quiet env = true -> s2 = ns /\ cur_src st' = Told).
+Proof. exact invoke_retry_env. Qed.
+Print Assumptions C41_invoke_retry_env.
+
+(* bind.go (bindTempAuthKeyAttempt) carries a second copy of the retry; its condition, translated
+   from that file, is the same decision, and both sites call resetSalt. *)
+Theorem C41_bind_same_condition : forall b code, bind_retries_go b code = invoke_retries_go b code.
+Proof. exact bind_same_condition. Qed.
+Print Assumptions C41_bind_same_condition.
 
 (* non-vacuity: both disjuncts of attach_ok occur, and a double bad salt is returned *)
 Example C41_case_A :
